@@ -1383,5 +1383,8 @@ func runC01(r *Report) {
 	c.r7("R7")
 	c.r8("R8")
 	c.r9("R9")
+	// the FUSE consumer: a Reader is stateful (Seek then Read), the kernel sends reads for one handle in parallel, and
+	// the handle's semaphore is the only thing that keeps the reply for offset X carrying the bytes of offset X
+	c02R5(r.sub("R7"))
 	r.Notes = append(r.Notes, fmt.Sprintf("lockset: %d lock operations on Pieces.mu seen over %d functions", c.la.nLockOps, len(c.la.funcs)))
 }
